@@ -118,6 +118,15 @@ CHECKS["C05"] = dict(
          "otherwise it is reported with the two differing variants as replay. Hash-seed runs are real subprocesses."),
    note=RES_NOTE + " Hash-seed determinism of everything before result generation is covered by C18's checks.", design_ref="DESIGN.md section 6 C05, section 11")
 
+CHECKS["C20"] = dict(
+   technique="Coq: generic theorems over every well-formed option table (induction over item lists: last-wins per pass, two-pass precedence, list accumulation, independence, defaults never overwrite, wrong-type rejection) instantiated on tables regenerated by introspecting the parsers; exhaustive per-option and per-pair differential correspondence + real subprocess scenarios",
+   text=("For EVERY well-formed option table, every option present in both parsers and ALL item lists: C20_cli_else_toml_else_default (command line, else TOML, else default; last occurrence wins within a source), C20_list_options_accumulate, "
+         "C20_options_independent (an item changes only the dest of the option it names - so the product over options reduces to per-option reasoning, proved not assumed), C20_defaults_never_overwrite, C20_wrong_type_rejected. "
+         "The tables are regenerated from the argparse parsers the current source builds (C20_generated_tables_well_formed, C20_documented_defaults are re-checked on every run). The model is compared with parse_arguments on every {absent, valid, invalid} TOML value x CLI value "
+         "per option, every pair of options and a sampled product; -c / pyproject selection is exercised by real subprocess runs. Two findings are listed (values starting with '-', bool for int option)."),
+   note=COMMON_NOTE + "argparse is modelled only for canonical long options with the value as a separate argument (prefix abbreviations, '=' forms and short-option clusters are outside the model); TOML file parsing (tomllib) and project-root discovery are exercised end-to-end only.",
+   design_ref="DESIGN.md section 6 C20, section 11")
+
 NOT_YET = {}
 
 def main():
